@@ -889,14 +889,15 @@ static int ec_rx(char *loc, char *cmd, char *arg, char *txt)
 
 static int ec_rk(char *loc, char *cmd, char *arg, char *txt)
 {
-	char *rep, *path;
+	char *rep, *path, *ibuf;
 	int reg = 0;
 	arg = ex_reg(arg, &reg);
 	if (reg <= 0)
 		return 1;
 	if (!(path = ex_pathexpand(arg, 1)))
 		return 1;
-	rep = cmd_unix(path, reg_get(reg, NULL));
+	ibuf = reg_get(reg, NULL);
+	rep = cmd_unix(path, ibuf ? ibuf : "");
 	reg_put(reg, rep ? rep : "", 1);
 	free(rep);
 	return !rep;
